@@ -58,6 +58,8 @@ type rootT struct {
 	Any    any    `json:"any"`
 	Short  string `json:"id"` // two tags that differ only in case
 	Long   string `json:"ID"`
+	Token  string `json:"-"`  // exported, hidden from encoding/json: still a Go field
+	Dash   string `json:"-,"` // encoding/json: the literal name "-"
 }
 
 // VD is a JSON-serialisable description of a Go value.
